@@ -261,12 +261,6 @@ theorem emptyText_of_jvalue {o : GOpts} {md : Nat} {key : Bytes → Bytes} {d : 
     · exact hc1 hy
     · exact hc2 hy
 
-theorem emptyLenR_of_unwrite_true {b r : Bytes} (h : unwriteEmptyBytes b = some (r, true)) :
-    emptyLenR b.reverse ≠ 0 := by
-  intro hz
-  rw [unwriteEmptyBytes_of_zero hz] at h
-  simp at h
-
 /-- The classification in terms of avoidFlush's own test: a JSON value whose last two bytes are `ll`, `""`, `{}` or
 `[]` is `null`, `""`, `{}`, `[]`, or ends in an escaped quote followed by the closing quote (`…\""`) — exactly the
 case that UnwriteEmptyObjectMember excludes with its `b[len(b)-3] == '\\'` test. -/
